@@ -28,8 +28,34 @@ def bilinear(op: Any, opt: Any, rng: Any) -> None:
                       expr=dense.describe(op))
 
 
+def integer_operator(rng: Any) -> tuple[Any, Any]:
+    """Selecting / packing / broadcasting integer data (the docstrings use int32 operators)."""
+    import jax.numpy as jnp
+
+    from furax._base.diagonal import BroadcastDiagonalOperator
+    n = int(rng.integers(2, 5))
+    s = gen.S((n,) if rng.integers(2) else (2, n), np.int32)
+    kind = gen.pick(rng, ['index', 'pack', 'broadcast', 'index-pytree'])
+    if kind == 'index':
+        op = gen.a_index(rng, s)
+    elif kind == 'pack':
+        op = gen.a_pack(rng, s)
+    elif kind == 'broadcast':
+        op = BroadcastDiagonalOperator(jnp.asarray(rng.integers(-3, 4, size=(2, n)), dtype=jnp.int32), axis_destination=(-len(s.shape) - 1, -1), in_structure=s)
+    else:
+        s = {'b': s, 'a': gen.S(s.shape, np.int32)}
+        op = gen.a_index(rng, s)
+    return s, op
+
+
 def case(rng: Any, ctx: Ctx, index: int) -> None:
-    s, op = rand_operator(rng, ctx, lazy_inverse=False, index=index)
+    if index % 12 == 11:
+        s, op = integer_operator(rng)
+        if op is None:
+            return
+        LOG.count('C03.integer-data', type(op).__name__)
+    else:
+        s, op = rand_operator(rng, ctx, lazy_inverse=False, index=index)
     if 'InverseOperator' in dense.class_names(op):
         return
     opt = op.T          # monitored (and every nested transpose it triggers)
